@@ -256,6 +256,7 @@ class MiniLoop(asyncio.AbstractEventLoop):
     def __init__(self):
         self._ready = collections.deque()
         self.steps = 0
+        self.tasks = []     # every task ever created on this loop (leftover-task checks)
 
     def get_debug(self):
         return False
@@ -273,7 +274,9 @@ class MiniLoop(asyncio.AbstractEventLoop):
         return asyncio.Future(loop=self)
 
     def create_task(self, coro, *, name=None, context=None):
-        return asyncio.Task(coro, loop=self, name=name)
+        t = asyncio.Task(coro, loop=self, name=name)
+        self.tasks.append(t)
+        return t
 
     def call_soon(self, cb, *args, context=None):
         h = _events.Handle(cb, args, self, context)
@@ -282,6 +285,17 @@ class MiniLoop(asyncio.AbstractEventLoop):
 
     def call_exception_handler(self, ctx):
         pass   # aborted symbolic paths destroy pending tasks; nothing to report
+
+    def drain(self, limit=200):
+        """run ready callbacks until none is left (no environment action in between)"""
+        n = 0
+        while self._ready and n < limit:
+            self.run_one()
+            n += 1
+        return not self._ready
+
+    def leftover_tasks(self):
+        return [t for t in self.tasks if not t.done()]
 
     def run_one(self):
         h = self._ready.popleft()
